@@ -51,6 +51,7 @@ Section adv.
     ai_from : st_now s0 ≤ st_now s;
     ai_rel : ∃ D, LR s D (tcur outs) ∧ due_D s D;
     ai_fail : fails_ok X (tcur outs);
+    ai_pend : t_pending t = [];
     ai_comps : ∀ c, c ∈ comps outs → st_now s0 ≤ c_at c ≤ st_now s ∧ rlock c ∧ c_wid c ∉ w_id <$> st_waiters s;
     ai_sorted : StronglySorted (λ x y, c_at x ≤ c_at y) (comps outs);
     ai_nodup : NoDup (c_wid <$> comps outs);
@@ -102,7 +103,7 @@ Section adv.
     AI s outs → d ∈ next_due target s → fire cfg d (tick cfg (Z.max (st_now s) (due_time d)) s) = (s2, o) →
     AI s2 (outs ++ o).
   Proof.
-    intros [HI Hsane Hfrom (D & HL & HD) HX Hcs Hsort Hnd Honly] Hd Hf.
+    intros [HI Hsane Hfrom (D & HL & HD) HX Hpd Hcs Hsort Hnd Honly] Hd Hf.
     pose proof (round_time_sane _ _ _ _ _ _ Hd Hf Hsane) as (Hsane2 & Hnow2 & Hle2).
     pose proof (next_due_elem _ _ _ Hd) as (Hin & Hdt & Hmin).
     destruct Hsane as [Hnt Hitems]. pose proof (Hitems _ Hin) as Hnd'.
@@ -138,7 +139,7 @@ Section adv.
         exfalso. apply elem_of_lfilter in Hh as Hh'. destruct Hh' as [Ha _]. pose proof (hr_lease _ _ _ _ _ _ HH1 I h Hh) as Hl.
         injection Ec as En Ek _. rewrite En, Ek in Hl. unfold tdl in Hl. unfold s1 in Hl. rewrite tick_timers, <- Etk, Htm in Hl.
         unfold alive in Ha. rewrite Hl in Ha. simpl in *. lia. }
-      destruct (mgr_unlock_LR cfg i None X _ _ s1 s3 r o3 D1 (tcur outs) Hm HTI1 HinD HL1 HX)
+      destruct (mgr_unlock_LR cfg i None X _ _ s1 s3 r o3 D1 (tcur outs) Hm HTI1 HinD HL1 HX ltac:(unfold tcur; by rewrite done_list_pending))
         as (-> & HL3 & HX3 & En3 & Hnl3 & Hcs3 & Hsub3 & Hnd3 & Hndw3).
       assert (tcur (outs ++ o3) = done_list cfg i None (comps o3) (tcur outs)) as Etc.
       { unfold tcur. by rewrite comps_app, done_list_app. }
@@ -203,10 +204,9 @@ End adv.
 
 Lemma track_advance_ok X cfg i dt s s' o t :
   cfg_ok cfg → Inv cfg s → st_shut s = false → TR X cfg s t → (s', o) ∈ advance cfg dt s →
-  (multi_grant (comps o) → X i "C03:not-fifo"%string) →
-  TR X cfg s' (track_step cfg i (EAdvance dt) o t).
+  TR X cfg s' (track_step0 cfg i (EAdvance dt) o t).
 Proof.
-  intros Hcfg HI Hsh HT Hin HM. unfold advance in Hin. set (target := st_now s + Z.max 0 dt) in *.
+  intros Hcfg HI Hsh HT Hin. unfold advance in Hin. set (target := st_now s + Z.max 0 dt) in *.
   pose proof (Inv_QInv _ _ HI) as (HS & HMM & Hgc). pose proof HS as (HTI & _).
   eapply (advance_loop_inv cfg target (AI X cfg i s t target)) in Hin as (sf & HA & Hnd & ->).
   2:{ intros s1 outs d s2 o2. by apply AI_step. }
@@ -217,18 +217,18 @@ Proof.
       - lia.
       - exists []. split; [by eapply TR_LR|]. by intros n k ?%elem_of_nil.
       - apply (tr_fail _ _ _ _ HT).
+      - apply (tr_pending _ _ _ _ HT).
       - by intros c ?%elem_of_nil.
       - constructor.
       - constructor.
       - by intros x ?%elem_of_nil. }
-  destruct HA as [HLI [Hnt _] Hfrom (D & [HH HW] & HD) HX Hcs Hsort Hndc Honly].
+  destruct HA as [HLI [Hnt _] Hfrom (D & [HH HW] & HD) HX _ Hcs Hsort Hndc Honly].
   assert (D = []) as ->.
   { destruct D as [|[n k] D]; [done|]. destruct (HD n k) as (tm & Htm & Hdl); [left|].
     assert (target < due_time (DTimer (tkey n k) tm)); [|simpl in *; lia].
     apply (next_due_nil _ _ _ Hnd). apply all_items_timer. done. }
   set (tf := tcur cfg i t o) in *.
-  pose proof (t_completions_transfer cfg i None o t Hsort Hndc ltac:(intros c Hc; by apply Hcs)
-                (WR_coh _ _ _ _ _ _ HTI (tr_waiters _ _ _ _ HT))) as (En & Ep & Ew & Hp & Hf).
+  pose proof (t_completions_transfer cfg i None o t Hsort Hndc ltac:(intros c Hc; by apply Hcs)) as (En & Ep & _ & Ew & Hp & Hf).
   fold tf in En, Ep, Ew, Hp, Hf.
   simpl. rewrite (tr_now _ _ _ _ HT). fold target.
   rewrite flag_true.
@@ -258,5 +258,5 @@ Proof.
     + done.
     + by intros n k ?%elem_of_nil.
   - rewrite gc_waiters, Ew. exact HW.
-  - intros j tag Hj. destruct (Hf _ Hj) as [?|[Hm [= -> ->]]]; [by apply HX|by apply HM].
+  - intros j tag Hj. by apply HX, Hf.
 Qed.
